@@ -23,6 +23,8 @@ type c04Case struct {
 	Event   vfBytes     `json:"event"` // original wire JSON (reference hashed + signed by Origin)
 	Origin  string      `json:"origin"`
 	Tampers []c04Tamper `json:"tampers"`
+	// GenuineFirst: the untampered event goes through the untrusted parser before the tampered copy
+	GenuineFirst bool `json:"genuine_first,omitempty"`
 }
 
 var c04Stripped = []string{"outlier", "destinations", "age_ts", "unsigned"}
@@ -97,6 +99,14 @@ func c04Check(ctx *vfCtx, c c04Case) {
 	}
 
 	var ev PDU
+	// history: the genuine event is received first (as it would be from an honest server), then the
+	// tampered copy - the outcome for the copy must not depend on anything remembered from the original
+	if c.GenuineFirst && len(c.Tampers) > 0 {
+		ctx.Class("history/genuine-event-parsed-first")
+		if vfCatch(ctx, "C04/genuine-first", func() { _, _ = impl.NewEventFromUntrustedJSON([]byte(jplain(orig))) }) {
+			return
+		}
+	}
 	if vfCatch(ctx, "C04", func() { ev, err = impl.NewEventFromUntrustedJSON(append([]byte(nil), wire...)) }) {
 		return
 	}
@@ -219,7 +229,7 @@ func c04Gen(t *rapid.T) c04Case {
 		p.Type = "m.room.message"
 		p.StateKey = nil
 	}
-	c := c04Case{Version: version, Origin: p.Origin}
+	c := c04Case{Version: version, Origin: p.Origin, GenuineFirst: rapid.Bool().Draw(t, "genuineFirst")}
 	c.Event = c05Wire(p, jv{K: 'o'}, p.Origin, "")
 	o := jgenOpts{MaxDepth: 2, MaxWidth: 3, IntsOnly: true}
 	n := rapid.SampledFrom([]int{0, 1, 1, 1, 2}).Draw(t, "ntamper")
